@@ -14,7 +14,7 @@ import (
 func init() {
 	Registry["C38"] = RuleDef{Module: "rueidislimiter", Run: runC38,
 		Technique:   "guard/def-use rules over the SSA of AllowN: what the admission flag, the remaining count and the reset time are computed from; delegation constants of Check/Allow; single atomic server round trip",
-		Explanation: "Decides the client-side arithmetic only: (R38a) Result.Allowed can be true only on the path where the counter value returned by the script (first reply element) is <= the limit of the option in effect, and for n = 0 only when it is < the limit; Remaining is max(limit - counter, 0) and ResetAtMs the second reply element; (R38b) Check delegates with n = 0 and Allow with n = 1 to AllowN, which rejects negative n before any request; (R38c) each AllowN performs exactly one script execution (the counter read-modify-write is a single atomic server-side step), its first argument being the decimal n and its keys the identifier's counter key and that key + \":ex\"; (R38d) the constructor rejects non-positive limits and windows; (R38e) in the embedded script text the counter key and the window marker are created with the same absolute expiry the counter is advanced by exactly one INCRBY of ARGV[1], and no `return` of the script precedes the window roll-over (the creation of the two keys) unless an enclosing `if` tests the value read from the window marker (a block-structure lint over the script source, not an analysis of Lua semantics) and the counting script is not built retryable (an automatic re-send would count a request twice).",
+		Explanation: "Decides the client-side arithmetic only: (R38a) Result.Allowed can be true only on the path where the counter value returned by the script (first reply element) is <= the limit of the option in effect, and for n = 0 only when it is < the limit; Remaining is max(limit - counter, 0) and ResetAtMs the second reply element; (R38b) Check delegates with n = 0 and Allow with n = 1 to AllowN, which rejects negative n before any request; (R38c) each AllowN performs exactly one script execution (the counter read-modify-write is a single atomic server-side step), its first argument being the decimal n and its keys the identifier's counter key and that key + \":ex\"; (R38d) the constructor rejects non-positive limits and windows; (R38e) in the embedded script text the counter key and the window marker are created with the same absolute expiry the counter is advanced exactly once per run of the script by an INCRBY of ARGV[1] (no advancing call in a loop, no two that can execute in the same run - occurrences in different arms of one `if` or separated by a `return` count once), and no `return` of the script precedes the window roll-over (the creation of the two keys) unless an enclosing `if` tests the value read from the window marker (a block-structure lint over the script source, not an analysis of Lua semantics) and the counting script is not built retryable (an automatic re-send would count a request twice).",
 		NotDecided:  "the Lua script itself and Redis' atomic execution of it (the heart of 'never more than the limit'), window arithmetic against the server clock, concurrent callers."}
 }
 
@@ -297,7 +297,29 @@ func runC38(r *Report) {
 			}
 			r.Ob("R38e", nil, "counter-and-window-marker-expire-together", token.NoPos, same, fmt.Sprintf("the script creates the counter key and the window marker with the same absolute expiry: %v", exp))
 			incr := regexp.MustCompile(`redis\.call\(\s*"incrby"\s*,\s*rate_limit_key\s*,\s*increment_amount\s*\)`).FindAllString(src, -1)
-			r.Ob("R38e", nil, "single-increment-by-requested-amount", token.NoPos, len(incr) == 1 && strings.Contains(src, "tonumber(ARGV[1])"), "the script advances the counter exactly once, by ARGV[1]")
+			// exactly one increment per run: every counter-advancing call of the script is the INCRBY of the
+			// requested amount, none sits in a loop, and no two of them can execute in the same run (two
+			// textual occurrences in different arms of one `if`, or separated by a return, are one per run)
+			scan := luaReturns(src)
+			var adv []luaReturn
+			for _, s := range scan {
+				switch s.Kind {
+				case "call:incrby", "call:incr", "call:incrbyfloat", "call:decr", "call:decrby":
+					adv = append(adv, s)
+				}
+			}
+			once := len(adv) >= 1 && len(adv) == len(incr)
+			for i, a := range adv {
+				if a.Loop {
+					once = false
+				}
+				for _, b := range adv[i+1:] {
+					if luaCoExecutable(a, b, scan) {
+						once = false
+					}
+				}
+			}
+			r.Ob("R38e", nil, "single-increment-by-requested-amount", token.NoPos, once && strings.Contains(src, "tonumber(ARGV[1])"), fmt.Sprintf("the script advances the counter exactly once per run, by ARGV[1] (%d advancing calls, %d of them INCRBY of the requested amount)", len(adv), len(incr)))
 			// a reply produced before the window roll-over (the creation of the two keys) reports the
 			// counter and the end of a window that may already be over: such a `return` is accepted only
 			// under a condition on the value read from the window marker (the "window still running" arm)
@@ -307,7 +329,7 @@ func runC38(r *Report) {
 				for _, m := range luaGetAssign.FindAllStringSubmatch(src, -1) {
 					marker = append(marker, m[1])
 				}
-				rets := luaReturns(src)
+				rets := luaReturnsOnly(scan)
 				early := []string{}
 				for _, lr := range rets {
 					if lr.Off > lastSet {
